@@ -14,13 +14,19 @@
    to all its successors (work list); then the values and dependencies are written (direct
    successors and selected ends become Ready); END skipped = the run fails ("unknown node").
    Workflow branches carry no data.  [fixed = false] is the code before 665541a.
+   Edge kinds of a Workflow (round 4): an ordinary edge (WorkflowNode.AddInput) is a data and a control
+   edge - the [n_preds] of a node; AddDependency is a control edge only ([sg_ctl]: the source is among
+   the ControlPredecessors of the target's channel and the target among the source's chanCall.controls,
+   no value is written); AddInputWithOptions(.., WithNoDirectDependency()) is a data edge only ([sg_dat]:
+   DataPredecessors / chanCall.writeTo).  successors = writeTo ++ controls ++ branch ends.
 
    Definitions only; proofs in Proofs/EagerSkip.v. *)
 From Eino Require Import Base.Util Model.Confluence.
 
 (* a branch: source, end nodes, the end nodes its (deterministic) condition selects *)
 Record br := mkbr { br_from : nid; br_ends : list nid; br_sel : list nid }.
-Record sgraph := mksg { sg_nodes : graph; sg_brs : list br }.
+(* [sg_ctl], [sg_dat]: the control-only / data-only edges as (target, source) pairs *)
+Record sgraph := mksg { sg_nodes : graph; sg_brs : list br; sg_ctl : list (nid * nid); sg_dat : list (nid * nid) }.
 
 Inductive cst := CReady | CSkip.
 Record sstate := mkss {
@@ -40,11 +46,22 @@ Fixpoint cfind (k : key2) (m : list (key2 * cst)) : option cst :=
 (* branch sources that have n among their ends *)
 Definition br_srcs (G : sgraph) (n : nid) : list nid :=
   map br_from (filter (fun b => nmem n (br_ends b)) (sg_brs G)).
-(* control predecessors: the edges (data with direct dependency) and the branch sources *)
-Definition cpreds (G : sgraph) (n : node) : list nid := n_preds n ++ br_srcs G (n_id n).
-(* c.successors[c]: every node that has c as a control (or data) predecessor *)
+Definition srcs_of (es : list (nid * nid)) (n : nid) : list nid :=
+  map snd (filter (fun e => N.eqb (fst e) n) es).
+Fixpoint ins (x : nid) (l : list nid) : list nid :=
+  match l with
+  | [] => [x]
+  | y :: l' => if N.leb x y then x :: l else y :: ins x l'
+  end.
+(* control predecessors: the ordinary edges, the control-only edges and the branch sources *)
+Definition cpreds (G : sgraph) (n : node) : list nid :=
+  n_preds n ++ srcs_of (sg_ctl G) (n_id n) ++ br_srcs G (n_id n).
+(* data predecessors, in key order: the ordinary edges and the data-only edges *)
+Definition dpreds (G : sgraph) (n : node) : list nid :=
+  fold_right ins (n_preds n) (srcs_of (sg_dat G) (n_id n)).
+(* c.successors[c]: every node that has c as a control or data predecessor *)
 Definition ssuccs (G : sgraph) (c : nid) : list nid :=
-  map n_id (filter (fun n => nmem c (cpreds G n)) (sg_nodes G)).
+  map n_id (filter (fun n => nmem c (cpreds G n) || nmem c (dpreds G n)) (sg_nodes G)).
 Definition find_node (G : sgraph) (x : nid) : option node :=
   find (fun n => N.eqb (n_id n) x) (sg_nodes G).
 
@@ -58,7 +75,7 @@ Definition skip_report (G : sgraph) (s : sstate) (t from : nid) : sstate * bool 
   | None => (s, false)
   | Some n =>
       let ctl' := if nmem from (cpreds G n) then ((t, from), CSkip) :: ss_ctl s else ss_ctl s in
-      let dsk' := if nmem from (n_preds n) then (t, from) :: ss_dsk s else ss_dsk s in
+      let dsk' := if nmem from (dpreds G n) then (t, from) :: ss_dsk s else ss_dsk s in
       let s1 := mkss (ss_vals s) ctl' dsk' (ss_skn s) in
       let sk := all_skipped G s1 n in
       (mkss (ss_vals s) ctl' dsk' (if sk then (if nmem t (ss_skn s) then ss_skn s else t :: ss_skn s)
@@ -86,11 +103,15 @@ Definition sel_of (G : sgraph) (c : nid) : list nid :=
   flat_map br_sel (filter (fun b => N.eqb (br_from b) c) (sg_brs G)).
 Definition ends_of (G : sgraph) (c : nid) : list nid :=
   flat_map br_ends (filter (fun b => N.eqb (br_from b) c) (sg_brs G)).
-Definition dsuccs (G : sgraph) (c : nid) : list nid := succs (sg_nodes G) c.   (* direct successors *)
+(* chanCall.controls / chanCall.writeTo of c: its successors by a control edge / by a data edge *)
+Definition csuccs (G : sgraph) (c : nid) : list nid :=
+  map n_id (filter (fun n => nmem c (n_preds n) || nmem c (srcs_of (sg_ctl G) (n_id n))) (sg_nodes G)).
+Definition dsuccs (G : sgraph) (c : nid) : list nid :=
+  map n_id (filter (fun n => nmem c (dpreds G n)) (sg_nodes G)).
 
 (* the ends to report as skipped when c completes *)
 Definition unselected (fixed : bool) (G : sgraph) (c : nid) : list nid :=
-  filter (fun e => negb (nmem e (sel_of G c)) && negb (fixed && nmem e (dsuccs G c))) (ends_of G c).
+  filter (fun e => negb (nmem e (sel_of G c)) && negb (fixed && nmem e (csuccs G c))) (ends_of G c).
 
 Definition prop_fuel (G : sgraph) : nat :=
   S (List.length (sg_nodes G)) * S (List.length (sg_nodes G) + List.length (sg_brs G)).
@@ -101,18 +122,18 @@ Definition sreport (fixed : bool) (G : sgraph) (s : sstate) (cv : nid * val) : s
   let s1 := propagate G (prop_fuel G) (map (fun u => (u, c)) (unselected fixed G c)) s in
   let live := fun t => negb (nmem t (ss_skn s1)) in
   let vs := map (fun d => ((d, c), snd cv)) (filter live (dsuccs G c)) in
-  let ds := map (fun d => ((d, c), CReady)) (filter live (dsuccs G c ++ sel_of G c)) in
+  let ds := map (fun d => ((d, c), CReady)) (filter live (csuccs G c ++ sel_of G c)) in
   mkss (vs ++ ss_vals s1) (ds ++ ss_ctl s1) (ss_dsk s1) (ss_skn s1).
 
 Definition sready (G : sgraph) (s : sstate) (n : node) : bool :=
   negb (nmem (n_id n) (ss_skn s)) &&
-  match cpreds G n with [] => false | _ => true end &&
+  match cpreds G n ++ dpreds G n with [] => false | _ => true end &&   (* no predecessor at all: skipped up front *)
   forallb (fun c => match cfind (n_id n, c) (ss_ctl s) with Some _ => true | None => false end) (cpreds G n) &&
   forallb (fun d => match vfind (n_id n, d) (ss_vals s) with Some _ => true | None => dmem (n_id n, d) (ss_dsk s) end)
-          (n_preds n).
+          (dpreds G n).
 
-Definition sget_input (s : sstate) (n : node) : val :=
-  flat_map (fun p => match vfind (n_id n, p) (ss_vals s) with Some v => v | None => [] end) (n_preds n).
+Definition sget_input (G : sgraph) (s : sstate) (n : node) : val :=
+  flat_map (fun p => match vfind (n_id n, p) (ss_vals s) with Some v => v | None => [] end) (dpreds G n).
 
 Definition sclear (s : sstate) (n : nid) : sstate :=
   mkss (filter (fun kv => negb (N.eqb (fst (fst kv)) n)) (ss_vals s))
@@ -127,7 +148,7 @@ Definition scalc_next (fixed : bool) (G : sgraph) (s : sstate) (cv : nid * val) 
   let s1 := sreport fixed G s cv in
   if nmem END (ss_skn s1) then SFail else
   let rs := filter (sready G s1) (sg_nodes G) in
-  let ts := map (fun n => (n, sget_input s1 n)) rs in
+  let ts := map (fun n => (n, sget_input G s1 n)) rs in
   match find is_end ts with
   | Some (_, v) => SReturn v
   | None => STasks ts (fold_left sclear (map n_id rs) s1)
@@ -146,7 +167,9 @@ Fixpoint srun_eager (fixed : bool) (pick : list (node * val) -> nat) (G : sgraph
           match scalc_next fixed G s (run_task t) with
           | SReturn v => (ODone v, log, ids_of (remove_nth i running))
           | SFail => (OFail, log, ids_of (remove_nth i running))
-          | STasks ts s' => srun_eager fixed pick G f s' (remove_nth i running ++ ts) (log ++ log_of ts)
+          | STasks ts s' =>
+              if existsb prefail ts then (OFail, log, ids_of (remove_nth i running))   (* submit fails *)
+              else srun_eager fixed pick G f s' (remove_nth i running ++ ts) (log ++ log_of ts)
           end
       end
   end.
@@ -156,5 +179,5 @@ Definition seager (fixed : bool) (pick : list (node * val) -> nat) (G : sgraph) 
   match scalc_next fixed G sinit (START, input_val) with
   | SReturn v => (ODone v, [], [])
   | SFail => (OFail, [], [])
-  | STasks ts s => srun_eager fixed pick G fuel s ts (log_of ts)
+  | STasks ts s => if existsb prefail ts then (OFail, [], []) else srun_eager fixed pick G fuel s ts (log_of ts)
   end.
